@@ -2325,9 +2325,9 @@ class Request:
         try:
             # TODO(CaselIT): find a way to avoid encode + BytesIO if handlers
             # interface is refactored. Possibly using the WS interface?
-            val = handler.deserialize(
-                BytesIO(param_value.encode()), MEDIA_JSON, len(param_value)
-            )
+            # NOTE: content_length is the length in bytes, not in characters.
+            data = param_value.encode()
+            val = handler.deserialize(BytesIO(data), MEDIA_JSON, len(data))
         except errors.HTTPBadRequest:
             msg = 'It could not be parsed as JSON.'
             raise errors.HTTPInvalidParam(msg, name)
